@@ -28,12 +28,32 @@ def IsTok (tok : Str) : Prop := tok ∈ entities ∨ ∃ c, tok = [c] ∧ c ∉ 
 /-- text that is a sequence of such tokens -/
 def Tokenized (t : Str) : Prop := ∃ toks : List Str, t = toks.flatten ∧ ∀ tok ∈ toks, IsTok tok
 
-/-- what a browser makes of escaped character data: entities back to their characters
-(`none` when the text is not tokenised: a bare special character) -/
-def entityChar (ent : Str) : Option Char :=
-  [(['&', 'a', 'm', 'p', ';'], '&'), (['&', 'l', 't', ';'], '<'), (['&', 'g', 't', ';'], '>'),
-   (['&', 'q', 'u', 'o', 't', ';'], '"'), (['&', '#', 'x', '2', '7', ';'], '\''),
-   (['&', '#', '0', '3', '9', ';'], '\'')].lookup ent
+/-- one character reference at the head of the text, as an HTML parser decodes it -/
+def matchEntity : Str → Option (Char × Str)
+  | '&' :: 'a' :: 'm' :: 'p' :: ';' :: r => some ('&', r)
+  | '&' :: 'l' :: 't' :: ';' :: r => some ('<', r)
+  | '&' :: 'g' :: 't' :: ';' :: r => some ('>', r)
+  | '&' :: 'q' :: 'u' :: 'o' :: 't' :: ';' :: r => some ('"', r)
+  | '&' :: '#' :: 'x' :: '2' :: '7' :: ';' :: r => some ('\'', r)
+  | '&' :: '#' :: '0' :: '3' :: '9' :: ';' :: r => some ('\'', r)
+  | _ => none
+
+/-- character data between two tags as a (strict) HTML parser reads it: a `<` ends the data
+(`none`: markup would start here), an `&` must start one of the references and stands for its
+character, everything else is itself.  `fuel` bounds the number of characters. -/
+def htmlData : Nat → Str → Option Str
+  | _, [] => some []
+  | 0, _ :: _ => none
+  | f + 1, c :: r =>
+    if c == '&' then
+      match matchEntity (c :: r) with
+      | some (d, r') => (htmlData f r').map (d :: ·)
+      | none => none
+    else if c == '<' then none
+    else (htmlData f r).map (c :: ·)
+
+/-- the text a browser shows for `t` placed between two tags; `none` if `t` is not pure data -/
+def htmlText (t : Str) : Option Str := htmlData t.length t
 
 /-- what `render` puts between the quotes of `repr(clean_url)`: the escaped URL with `repr`'s
 backslash escapes (single-quote variant) -/
